@@ -152,7 +152,7 @@ var c20Parts = map[string]func(*Ctx){}
 
 func c20(c *Ctx) {
 	c20Probe(c)
-	for _, part := range []string{"builder", "shipped", "reuse", "generated"} {
+	for _, part := range []string{"builder", "shipped", "reuse", "generated", "ast"} {
 		if f := c20Parts[part]; f != nil {
 			f(c)
 		}
@@ -160,6 +160,7 @@ func c20(c *Ctx) {
 	c.Rule = "(1) builder: random event streams for the REAL builder (parsers/tm/ast via verif hook) vs the Lean mirror: well-nested streams generated from random trees (empty nodes at starts/ends/equal offsets, equal ranges, containers delayed past later siblings as fixWhitespace does), and ill-nested perturbations; tree shape (type, off, end, children recursively) and WellNested verdicts compared; " +
 		"(2) shipped parsers tm/js/json/test on the inputs of their own tests and all .tm grammars of the repository, byte/token mutations, truncations and random bytes: direct O(n²) nesting check of the listener stream in Go, no panic, real ast trees (tm, js) vs the mirror on those streams; " +
 		"(2b) parser REUSE: one Parser value (Init once) parses a mostly broken first input (cut or wrong token right behind a comment / invalid token) and then a second input: the second stream must be well nested and equal to the stream of a fresh Parser (no state leaks between parses), shipped json/test/tm/js and generated parsers that report skipped tokens (%inject of a comment and invalid_token, fixWhitespace); " +
+		"(2c) generated parsers that report skipped tokens (comment and invalid_token injected, fixWhitespace): random CFGs with and without recovery rules plus a declaration family whose typed rule ends in a chain (depth 1-3) of randomly UNTYPED helper nonterminals over a nullable tail, optionally with `Problem: error` (empty error insertions), comments right behind declarations and between the last good and the offending token; direct nesting check, fresh vs reused Parser, and (without recovery) event-by-event replay by the layered Lean model (prun, as generated and with fixTrailingWS on all rules); (2d) generated AST builders (eventAST) with and without fileNode on that family with leading/trailing comments: tree of the generated ast.Parse vs the mirror (buildsingle / buildfile) and node count vs events; " +
 		"(3) generated parsers from conflict-free random CFGs with nested arrow annotations, with/without recovery rules, fixWhitespace and blanks: direct check, hypotheses InputWF/XWF of the Lean theorem evaluated on every table, every run replayed by the Lean runtime model; " +
 		"non-trivial = stream with nesting depth >= 2 (builder), input with a syntax error recovered (parsers); distinct by stream / (parser, input). " + c20RuleExtra
 }
